@@ -63,6 +63,11 @@ def check(prog, rep):
                 if tested:
                     rep.undecided(f"{i.name}: {k} has no arm in the walker's own dispatch chain but is tested for in a helper it calls; not decided")
                     continue
+                # the kind is named somewhere in the walker (a table, a tuple bound elsewhere, a pattern): not an arm this
+                # rule reads, but not an absence either
+                if any((isinstance(n_, ast.Name) and n_.id == k) or (isinstance(n_, ast.Attribute) and n_.attr == k) for n_ in ast.walk(i.node) if not isinstance(getattr(n_, "_parent", None), (ast.ImportFrom, ast.alias))):
+                    rep.undecided(f"{i.name}: {k} is mentioned in the walker but not in an isinstance arm of its dispatch chain; whether it is handled is not decided")
+                    continue
             rep.ob("R15.1", f"{i.name}", ok, robust=True, msg=
                    f"{k}: handled by both siblings" if hi is not None else (f"{k}: handed to the recursive sibling / conservative default ({label})" if ok else
                    f"{k} is handled by {r.name} (line {hr.lineno}) but {i.name} has no arm for it: the same formula works on a shallow tree and raises once the tree is deep enough to switch algorithms"),
